@@ -239,7 +239,7 @@ def view_op(fam, v, f):
     if fam == "auth":
         if n == "type":
             v.type = f[1]
-            return None, (lambda: v.type, f[1])
+            return None, (lambda: v.type, f[1].lower())  # documented normal form: lower-case scheme
         if n == "token":
             v.token = f[1]
             return None, (lambda: v.token, f[1])
@@ -470,6 +470,9 @@ class ViewsStream(Stream):
         # F08b / F08c surfacing through a view (known): case-duplicates in a HeaderSet view
         {"fam": "set", "prop": "Vary", "init": [["Vary", "a, b"]], "ops": [["v", "setitem", 0, "B"], ["v", "remove", "b"]]},
         {"fam": "set", "prop": "Vary", "init": [["Vary", "Cookie, cookie"]], "ops": [["v", "delitem", 0]]},
+        # F16e regression (repaired by 78ff821): the type setter lower-cases
+        {"fam": "auth", "prop": "WWW-Authenticate", "init": [], "ops": [["v", "token", "abc"], ["v", "type", "Basic"]]},
+        {"fam": "auth", "prop": "WWW-Authenticate", "init": [["WWW-Authenticate", "Basic realm=\"x\""]], "ops": [["v", "type", "DIGEST"], ["v", "setitem", "nonce", "n"]]},
         # F16b (known): an update on a challenge with neither token nor parameters
         {"fam": "auth", "prop": "WWW-Authenticate", "init": [], "ops": [["v", "setattr", "x", None]]},
     ]
@@ -606,8 +609,6 @@ class ViewsStream(Stream):
                 empty_note = "F16c"
             elif fam == "mp" and not pre_ct:
                 empty_note = "F16f"
-            elif fam == "auth" and held.type != held.type.lower():
-                empty_note = "F16e"
             elif fam == "cr" and held.units is not None:
                 from werkzeug.http import is_byte_range_valid
 
@@ -922,7 +923,7 @@ CHECK = Check(
 
 MANIFEST = {
     "level_text": "Machine-checked Lean 4 theorems: for every history of view mutations, re-fetches, whole-property assignments and direct header edits, the notification discipline of each view family (HeaderSet views under HeaderSet.Inv, cache-control / CSP / mimetype_params callback dicts, ContentRange, WWWAuthenticate as repaired) keeps the held view in sync with the header, and after an effective mutation the header text is the view's serialisation or absent when the view is empty; typed get/set for the scalar properties. The transcribed views are tied to the code by an exhaustive short-history correspondence stream and the two-part property oracle runs on the real objects.",
-    "level_note": "Trusted: Lean kernel; extract.py; harness; header codec round-trips are decidable side conditions of the history (C06), proved outright for token-valued HeaderSet views; dates opaque. Known findings F16b-F16f, F08b/F08c through views.",
+    "level_note": "Trusted: Lean kernel; extract.py; harness; header codec round-trips are decidable side conditions of the history (C06), proved outright for token-valued HeaderSet views; dates opaque. Known findings F16b, F16c, F16d, F16f, F08b/F08c through views.",
     "technique": "Lean 4 proof (invariant over operation histories, generic in the view family) + model/code correspondence",
     "design_ref": "DESIGN.md section 4, C16",
 }
